@@ -198,6 +198,8 @@ type pathCtx struct {
 	locksHeld                                            int
 	pools                                                map[*value][]value
 	maxDraws                                             int // harness-stated bound on dice per path (0 = none)
+	sched                                                *sched
+	schedClockDone                                       int
 	sharedWrites                                         []string
 	sharedWriteNames                                     map[string]bool
 	jsonSent                                             map[int64]*Term
